@@ -61,3 +61,13 @@ extern "C" double verif_ctl_goodnorm(const double* f) {
   }
   return fmax * std::sqrt(n2);
 }
+
+// C09 R7: the estimate produced from a valid bracket
+extern "C" bool verif_next_estimate(double* x, const double xmin, const double xmax, const double fmin, const double fmax) {
+  tfel::math::BissectionAlgorithmBase<double> b;
+  b.xmin = xmin;
+  b.xmax = xmax;
+  b.fmin = fmin;
+  b.fmax = fmax;
+  return b.getNextRootEstimate(*x);
+}
